@@ -46,7 +46,11 @@ RULE = (
     "counts, balancing 1..20); SPARSE part: 100-1000 clustered points on fine meshes of 60x60 .. 200x200 blocks (shape or spacing), "
     "so that the occupied block ids span more than 10 x (points + selected blocks) with several blocks holding 2+ points, float64 / "
     "float32 / int64 / int32 coordinates, C / Fortran / strided matrices, BlockShuffleSplit test_size 0.05..0.5 / counts / train_size "
-    "(a handful to > 100 test blocks), balancing 1..10, BlockKFold n_splits 2..10 shuffle on/off; nested use through cross_val_score (serial and dask-delayed) and train_test_split; points are "
+    "(a handful to > 100 test blocks), balancing 1..10, BlockKFold n_splits 2..10 shuffle on/off; SPELLINGS part: one configuration written with python / numpy integers, 0-d arrays, tuple / list / ndarray spacings and "
+    "shapes, scalar spacing = equal pair, np.True_ / 1 flags, counts as python / numpy ints, fractions as float / np.float64 (np.float32 "
+    "fractions are driven too but are a configuration of their own); every seeded configuration is run at least twice (same and fresh "
+    "instance, after next(cv.split(X)) on an abandoned generator) with numpy's GLOBAL generator re-seeded differently before every pass; "
+    "nested use through cross_val_score (serial and dask-delayed) and train_test_split; points are "
     "kept >= 1e-6 block sizes away from interior block edges. Non-trivial = unequal block populations, or an empty block, "
     "or n_splits = number of occupied blocks; distinct = hash of (class, parameters, X)."
 )
@@ -64,26 +68,35 @@ ASSUMPTIONS = [
     "reproducibility is demanded for integer random_state (and for BlockKFold without shuffling); RandomState instances are replayed "
     "from a snapshot taken at call time, random_state=None is only checked for the partition clauses",
     "warnings are observed through warnings.catch_warnings(record=True) opened by the workload",
+    "different spellings of one configuration must give identical splits; an np.float32 test/train fraction is NOT identified with the "
+    "python float of equal value because scikit-learn's ShuffleSplit itself evaluates ceil(fraction * n) in the precision it is given",
 ]
 FLOORS = {
     "quick": {"eval:split_partition": 21000, "eval:block_integrity": 21000, "eval:kfold_folds": 6000,
               "eval:kfold_balance": 1300, "eval:kfold_equal_blocks": 4500, "eval:kfold_fallback_justified": 1600,
               "eval:kfold_rejects_excess_splits": 250, "eval:shuffle_n_splits": 600, "eval:shuffle_test_block_count": 1800,
-              "eval:shuffle_replay": 1700, "eval:reproducible": 800, "eval:partition_by_sum": 1500,
+              "eval:shuffle_replay": 1700, "eval:reproducible": 1200, "eval:partition_by_sum": 1500,
               "eval:partition_by_sum_refusal": 1900, "eval:labels_match_reference": 6800, "distinct_nontrivial": 5700,
               "class:sparse_ids:pairs": 400, "class:sparse_ids:pairs_many_selected_blocks(sort regime)": 280,
               "class:sparse_ids:pairs_few_selected_blocks(loop regime)": 100, "class:sparse_ids:pairs_over_100_test_blocks": 20,
               "class:sparse_ids:BlockKFold": 45, "class:sparse_ids:BlockShuffleSplit": 45, "class:integer_coordinates": 150,
-              "class:float32_coordinates": 130, "class:fortran_ordered_X": 180},
+              "class:float32_coordinates": 130, "class:fortran_ordered_X": 180,
+              "eval:spelling_equivalence": 250, "spelling:BlockKFold_variants": 150, "spelling:BlockShuffleSplit_variants": 180,
+              "reproducible:kfold_shuffled_balanced": 190, "reproducible:kfold_shuffled_fallback": 200,
+              "reproducible:kfold_shuffled_unbalanced": 500, "reproducible:shuffle_split_seeded": 170, "partially_consumed_generators": 330},
     "thorough": {"eval:split_partition": 720000, "eval:block_integrity": 720000, "eval:kfold_folds": 187000,
                  "eval:kfold_balance": 38000, "eval:kfold_equal_blocks": 149000, "eval:kfold_fallback_justified": 55000,
                  "eval:kfold_rejects_excess_splits": 5500, "eval:shuffle_n_splits": 10000, "eval:shuffle_test_block_count": 28000,
-                 "eval:shuffle_replay": 27000, "eval:reproducible": 15000, "eval:partition_by_sum": 40000,
+                 "eval:shuffle_replay": 27000, "eval:reproducible": 59000, "eval:partition_by_sum": 40000,
                  "eval:partition_by_sum_refusal": 59000, "eval:labels_match_reference": 200000, "distinct_nontrivial": 180000,
                  "class:sparse_ids:pairs": 6400, "class:sparse_ids:pairs_many_selected_blocks(sort regime)": 4500,
                  "class:sparse_ids:pairs_few_selected_blocks(loop regime)": 1600, "class:sparse_ids:pairs_over_100_test_blocks": 500,
                  "class:sparse_ids:BlockKFold": 750, "class:sparse_ids:BlockShuffleSplit": 750, "class:integer_coordinates": 2000,
-                 "class:float32_coordinates": 2000, "class:fortran_ordered_X": 2000},
+                 "class:float32_coordinates": 2000, "class:fortran_ordered_X": 2000,
+                 "eval:spelling_equivalence": 4000, "spelling:BlockKFold_variants": 2600, "spelling:BlockShuffleSplit_variants": 3500,
+                 "reproducible:kfold_shuffled_balanced": 11000, "reproducible:kfold_shuffled_fallback": 16000,
+                 "reproducible:kfold_shuffled_unbalanced": 27000, "reproducible:shuffle_split_seeded": 2500,
+                 "partially_consumed_generators": 16000},
 }
 JOBS = {"quick": 1, "thorough": 8}
 CASE_TIMEOUT_S = 300
@@ -97,8 +110,8 @@ SAMPLE_OCCUPANCIES = (0, 0, 1, 1, 2, 3, 7, 50, 200)
 
 def plan(tier):
     if tier == "quick":
-        return collections.OrderedDict(lattice=LATTICE_CHUNKS["quick"], lattice_sample=8, random2d=36, sparse_fine=10, nested=4, partition=2)
-    return collections.OrderedDict(lattice=LATTICE_CHUNKS["thorough"], lattice_sample=64, random2d=480, sparse_fine=160, nested=48, partition=24)
+        return collections.OrderedDict(lattice=LATTICE_CHUNKS["quick"], lattice_sample=6, random2d=36, sparse_fine=10, spellings=5, nested=4, partition=2)
+    return collections.OrderedDict(lattice=LATTICE_CHUNKS["thorough"], lattice_sample=64, random2d=480, sparse_fine=160, spellings=80, nested=48, partition=24)
 
 
 class _State:
@@ -231,7 +244,12 @@ def _canon_text(cv):
         elif key in ("shuffle", "balance"):
             val = bool(val)
         elif key in ("test_size", "train_size"):
-            val = ("count", int(val)) if np.asarray(val).dtype.kind in "iu" else ("fraction", float(val))
+            # scikit-learn evaluates ceil(test_size * n) in the precision of the value it is given, so an np.float32 fraction is
+            # NOT the same configuration as the python float of equal value (ShuffleSplit itself differs: 1/3 of 12 blocks)
+            if np.asarray(val).dtype.kind in "iu":
+                val = ("count", int(val))
+            else:
+                val = ("fraction32" if isinstance(val, np.float32) else "fraction", float(val))
         elif key in ("n_splits", "balancing", "random_state"):
             val = int(val)
         out.append("%s=%r" % (key, val))
@@ -824,11 +842,13 @@ def _lattice_vector(run, rng, verde, vec, pos, entry):
                     entry["done"] += 1
     # extras (not part of the lattice count): a repeated seeded run, the rejection clause, one BlockShuffleSplit
     for k in range(2, occ + 1):
-        for balance in (True, False):
+        for balance in ((True, False) if run.tier == "thorough" or len(vec) <= 3 else (bool((k + pos) % 2),)):
             cv = verde.BlockKFold(n_splits=k, shuffle=True, random_state=seeds[0], balance=balance, **geometry)
             if (k + pos) % 3 == 0:
                 _partial(run, cv, xmat, occ)
-            _drive(run, cv if (k + pos) % 2 else _clone(cv), xmat, occ)  # second pass (same or fresh instance), other global state
+            _drive(run, cv, xmat, occ)  # second pass of this configuration (fresh instance), other global state
+            if (k + pos) % 4 == 0:
+                _drive(run, cv, xmat, occ)  # and once more from the same instance
     _drive(run, verde.BlockKFold(n_splits=occ + 1, balance=bool(pos % 2), **geometry), xmat, occ)
     test_size = [0.5, 1, 0.34, occ - 1, 0.1][pos % 5]
     cv = verde.BlockShuffleSplit(n_splits=2, test_size=test_size, balancing=int(rng.integers(1, 5)), random_state=seeds[1], **geometry)
@@ -870,7 +890,7 @@ def _run_lattice_sample(run, index, rng):
         run.count("lattice_sample:vectors")
 
 
-def _random_layout(rng, tier):
+def _random_layout(rng, tier, force_layout=None):
     """A 2-D block layout with a point cloud whose bounding box is the layout's region; returns X, geometry, occupied count, info."""
     n_north, n_east = int(rng.integers(1, 9)), int(rng.integers(1, 9))
     if n_north * n_east == 1 and rng.random() < 0.85:
@@ -912,7 +932,7 @@ def _random_layout(rng, tier):
     block = np.repeat(np.arange(cells), counts)
     total = block.size
     u, v = rng.uniform(0.01, 0.99, total), rng.uniform(0.01, 0.99, total)
-    layout = str(rng.choice(["C", "C", "F", "strided", "float32", "int64"]))
+    layout = force_layout or str(rng.choice(["C", "C", "F", "strided", "float32", "int64"]))
     if layout == "int64":  # integer coordinates: blocks of 1000 x (500|1000|2000) units, points >= 10 units inside
         d_east, aspect = 1000.0, float(rng.choice([0.5, 1.0, 2.0]))
         d_north = d_east * aspect
@@ -1098,6 +1118,66 @@ def _run_sparse(run, index, rng):
                                        "first_test_set": pairs[0][1], "n_pairs": len(pairs)})
 
 
+def _run_spellings(run, index, rng):
+    """
+    One configuration, many spellings: python / numpy integers, 0-d arrays, tuple / list / ndarray, np.float32 fractions,
+    np.True_ / 1 flags, scalar spacing = equal pair. Integer block sizes (1000 x 500|1000|2000 units) make integer spacings possible.
+    """
+    import verde
+
+    for rep in range(4):
+        xmat, _, info = _random_layout(rng, "quick", force_layout="int64")
+        if rng.random() < 0.5:
+            xmat = xmat.astype("float64")
+        n_occ = info["occupied_blocks"]
+        n_north, n_east = (int(v) for v in info["layout"].split("x"))
+        ext_e = int(round(float(xmat[:, 0].max()) - float(xmat[:, 0].min())))
+        ext_n = int(round(float(xmat[:, 1].max()) - float(xmat[:, 1].min())))
+        d_east, d_north = (ext_e // n_east if ext_e else 1000), (ext_n // n_north if ext_n else 1000)
+        geometries = [{"shape": (n_north, n_east)}, {"shape": [n_north, n_east]}, {"shape": np.array([n_north, n_east])},
+                      {"shape": (np.int32(n_north), np.int64(n_east))}]
+        if ext_e and ext_n:
+            geometries += [{"spacing": (d_north, d_east)}, {"spacing": [float(d_north), float(d_east)]}, {"spacing": np.array([d_north, d_east])},
+                           {"spacing": (np.int64(d_north), np.float32(d_east))}]
+            if d_east == d_north:
+                geometries += [{"spacing": d_east}, {"spacing": float(d_east)}, {"spacing": np.int64(d_east)}, {"spacing": np.array(d_east)},
+                               {"spacing": np.array(float(d_east))}, {"spacing": np.float32(d_east)}]
+        seed = int(rng.integers(0, 2 ** 31 - 1))
+        # BlockKFold
+        k = int(rng.integers(2, max(n_occ, 2) + 1)) if n_occ >= 2 else 2
+        for balance in (True, False):
+            flags = [(True, balance), (np.True_, np.bool_(balance)), (1, int(balance))]
+            ints = [(k, seed), (np.int64(k), np.int64(seed)), (np.int32(k), np.int32(seed % (2 ** 31 - 1)))]
+            for j, geometry in enumerate(geometries):
+                (shuffle, bal), (n_splits, state) = flags[j % 3], ints[(j // 2) % 3]
+                if int(state) != seed:
+                    state = seed
+                run.count("spelling:BlockKFold_variants")
+                _drive(run, verde.BlockKFold(n_splits=n_splits, shuffle=shuffle, random_state=state, balance=bal, **geometry), xmat, n_occ)
+        # BlockShuffleSplit: counts as python / numpy ints, fractions as python float / np.float32 / np.float64 (of the float32 value)
+        if n_occ >= 3:
+            count = int(rng.integers(1, n_occ))
+            frac = float(np.float32(rng.choice([0.1, 0.25, 1 / 3, 0.5, rng.uniform(0.05, 0.9)])))
+            sizes = [[dict(test_size=count), dict(test_size=np.int64(count)), dict(test_size=np.int32(count))],
+                     [dict(test_size=frac), dict(test_size=np.float32(frac)), dict(test_size=np.float64(frac))],
+                     [dict(test_size=None, train_size=count), dict(test_size=None, train_size=np.int64(count))],
+                     [dict(test_size=None, train_size=frac), dict(test_size=None, train_size=np.float32(frac))]]
+            nsp, bal = int(rng.integers(1, 4)), int(rng.integers(1, 8))
+            ints = [(nsp, bal, seed), (np.int64(nsp), np.int32(bal), np.int64(seed))]
+            for group in sizes:
+                for j, size_kwargs in enumerate(group):
+                    for i, geometry in enumerate(geometries[j::3][:3]):
+                        n_splits, balancing, state = ints[(i + j) % 2]
+                        run.count("spelling:BlockShuffleSplit_variants")
+                        cv = verde.BlockShuffleSplit(n_splits=n_splits, balancing=balancing, random_state=state, **size_kwargs, **geometry)
+                        if (i + j) % 4 == 0:
+                            _partial(run, cv, xmat, n_occ)
+                        _drive(run, cv, xmat, n_occ)
+        del ST.warnlog[:]
+        if rep == 0:
+            run.sample("spellings", {"layout": info, "geometries": [repr(g) for g in geometries], "n_splits": k, "seed": seed})
+
+
 def _random_state(rng):
     r = rng.random()
     seed = int(rng.integers(0, 2 ** 31 - 1))
@@ -1258,6 +1338,8 @@ def run_case(run, tap, stream, index, rng):
                 _run_random(run, index, rng)
             elif stream == "sparse_fine":
                 _run_sparse(run, index, rng)
+            elif stream == "spellings":
+                _run_spellings(run, index, rng)
             elif stream == "nested":
                 _run_nested(run, index, rng)
             elif stream == "partition":
